@@ -212,6 +212,9 @@ func checkC11(e *core.Env) {
 		e.Eval(fmt.Sprintf("%s|%s|%s|%q|%s|%s", mclass, kind, pathClass, ctc.ct, hdrClass, bodyClass), true)
 		w := map[string]any{"method": method, "path": path, "content_type": ctc.ct, "headers": hdrClass, "body_class": bodyClass, "kind": kind.String(), "http_status": rec.Code, "handler_invocations": count, "reply_len": rec.Body.Len()}
 		sig := "server/" + kindClass(kind) + "/"
+		if i < 4 {
+			e.Sample(w)
+		}
 		if pan != "" {
 			e.Violate(sig+"panic/"+hdrClass+"/"+bodyClass, "request made the server panic: "+trunc(pan, 600), w)
 			return
